@@ -11,16 +11,16 @@ CLAIMED = {
  "C04": ("7 C04", "TLC model checking of the composition spec (every sequence over a small alphabet up to a bound and over all 20 residues up to length 2: position sum = count form, permutation invariance, FCR/NCPR identities, fractions sum to 1) + replay of every state into the 18 scalar getters and the 20 amino-acid fractions against TLC's exact rationals + TLC trace validation of replies recorded on random sequences and their permutations, with call histories", NOTE),
  "C06": ("7 C06", "TLC model checking of the recoding laws (every sequence over 5 letters up to a bound x every group pair: swap, complement, Omega = kappa_X(PEDKR), kappa = kappa_X(ED,KR); kappa-level through inversion invariance in MC_Patterning) + relations between real replies and TLC trace validation of every get_Omega / get_kappa_X / get_Omega_sequence reply on exhaustive short and random sequences x random groups", NOTE),
  "C08": ("7 C08", "TLAPS proof (unbounded: the coded cascade is total, equals the documented thresholds, signs of regions 4/5) + TLC model checking of the same over every (p,n,z) up to a bound + every triple realised as a sequence and replayed into get_phasePlotRegion", NOTE + "; TLAPS SMT back end trusted"),
- "C10": ("7 C10", "TLC model checking of the profile spec (every sequence over 6 letters up to a bound x every window: coded flank arithmetic = documented placement, w=N value = global parameter, delta = mean squared deviation of the w=5,6 sigma profiles) + replay of every state x every window 1..N+3 into the five get_linear_* calls against TLC's exact profiles + TLC trace validation on random sequences x windows x user group lists", NOTE),
- "C11": ("7 C11", "TLC model checking of the complexity geometry (every (N,w,s) up to a bound: K windows, coded position row strictly increasing in 1..N; LC/LZW in [0,1] on every 3-letter window) + TLC trace validation of every get_linear_complexity reply on exhaustive short and random sequences (K, positions, range, locality against the window alone, WF = entropy kernel over reduced counts; unknown type / w>N rejected)", NOTE + "; the entropy kernel -(c/W)log_k(c/W) is computed by the harness with 60-digit decimals"),
+ "C10": ("7 C10", "TLAPS proof over module Geometry (unbounded: the coded flank arithmetic is the documented placement, flanks add up to w-1) + TLC model checking of the profile spec (every sequence over 6 letters up to a bound x every window: coded flank arithmetic = documented placement, w=N value = global parameter, delta = mean squared deviation of the w=5,6 sigma profiles) + replay of every state x every window 1..N+3 into the five get_linear_* calls against TLC's exact profiles + TLC trace validation on random sequences x windows x user group lists", NOTE),
+ "C11": ("7 C11", "TLAPS proof over module Geometry (unbounded: K = floor((N-w)/s)+1 windows fit and K+1 do not; the coded position row has K strictly increasing entries in 1..N) + TLC model checking of the complexity geometry (every (N,w,s) up to a bound: K windows, coded position row strictly increasing in 1..N; LC/LZW in [0,1] on every 3-letter window) + TLC trace validation of every get_linear_complexity reply on exhaustive short and random sequences (K, positions, range, locality against the window alone, WF = entropy kernel over reduced counts; unknown type / w>N rejected)", NOTE + "; the entropy kernel -(c/W)log_k(c/W) is computed by the harness with 60-digit decimals"),
  "C12": ("7 C12", "TLC model checking of the documented partitions (exactly size groups, disjoint cover, idempotent homomorphism; sizes 0..25) + the real residue map of all 12 sizes x 20 residues and replies on random sequences / user alphabets of every class judged by TLC against the partitions and the acceptance rule", NOTE),
  "C13": ("7 C13", "TLC model checking of string normalisation (every token string up to a bound over ten character classes: clean, idempotent, foreign/blank rejected, whitespace irrelevant) + replay of every state with seeded concrete characters into SequenceParameters() + TLC trace validation (Trace_Input) of constructions recorded for case/whitespace-injected sequences and every code point 0..0x2FF (+ Unicode sample) at every position", NOTE + "; Python's str.upper/str.isspace tables are exported to TLC as data"),
  "C14": ("7 C14", "TLC model checking of the file-parser state machine (every file up to a bound over ten character classes built and parsed by BlankLine/HeaderLine/SeqLine/Finish actions: the machine accepts exactly the documentation's reading with the same residues; reject sticky; one header) + replay of every such file through real files into parseSeqFile / SequenceParameters(sequenceFile=) + TLC trace validation of realistic layouts and all single-character corruptions", NOTE),
- "C15": ("7 C15", "TLC model checking of the object state machine (SeqObject: 2 objects, both delta-max caches and the shared default argument modelled as coded, all query kinds, mutators, children): full reachable graph, HistoryIndependent, CacheSound, ReadOnlyFrame, CrossObjectFrame + every TLC behaviour of bounded length stepped through real objects (abstract state compared after each action, replies compared with a fresh twin and across histories) + TLC trace validation (Trace_Object) of random 30-200 call histories on 3 live objects", NOTE + "; hidden state read through plain attributes; hidden cache flags that deviate from the automaton are reported as conformance notes, not alarms"),
+ "C15": ("7 C15", "TLC model checking of the object state machine (SeqObject: 2 objects, both delta-max caches and the shared default argument modelled as coded, all query kinds, mutators, children): full reachable graph, HistoryIndependent, CacheSound, ReadOnlyFrame, CrossObjectFrame + every TLC behaviour of bounded length stepped through real objects (abstract state compared after each action, replies compared with a fresh twin and across histories) + TLC trace validation (Trace_Object) of random 30-200 call histories on 3 live objects, of scripted parent/child histories and of several thousand questions asked in two pristine processes in opposite orders (the second under python -O and another hash seed)", NOTE + "; hidden state read through plain attributes; hidden cache flags that deviate from the automaton are reported as conformance notes, not alarms"),
  "C16": ("7 C16", "TLC model checking of the phosphosite rule (every argument of up to two positions in -2..8 on two sequences: SitesValid, NoRepeats, SetSemantics = documentation's reading, ClearEmpties, SeqImmutable) + every TLC behaviour replayed on a real object + phosphosequence / kappa after phosphorylation / 2^k distribution (order, bits, six values) judged by TLC for every reached state + TLC trace validation of random set/clear series with arbitrary integers", NOTE),
  "C20": ("7 C20", "TLC model checking of rendering as a token sequence (strip recovers the sequence, space exactly before residues 0,10,.., break exactly before 0,50,.., colour = palette entry; length classes up to 151) and of palette updates (PaletteAtomic, PaletteTotal over valid / extra key / missing key / invalid colour / wrong case) + TLC behaviours replayed on real objects + TLC trace validation: every real rendering tokenised and compared with Render(sequence, palette) of the tracked state", NOTE),
  "C17": ("7 C17", "TLC model checking of the moves with every random draw explicit (every sequence over 3 letters up to a bound x every frozen set x every outcome of the draws: only rearranges, keeps frozen, swaps succeed, carried delta-max valid) + every such case replayed into the real backend move through an RNG tape + TLC trace validation (Trace_Moves) of chains of random moves, get_shuffled_sequence and get_permutant recorded with a seeded RNG", NOTE + "; which child a given draw produces is compared with the spec's transcription only as a conformance note"),
- "C18": ("7 C18", "TLC model checking of the Wang-Landau state machine over bins (every start bin, proposal and allowed decision to a bounded depth: NeverLeavesWindow, CountRule, FlatRule, NoEarlyReset, ScheduleRule, GIncrement, StopRule) + TLC trace validation (Trace_WL) of real run_normal_WL runs recorded through the guarded hook and a seeded recording RNG: every step, flat check, the returned array and the DOS / histogram / glog / sequence-log files", NOTE + "; math.log used by the encoder to put ln f and ln p on the 2^-k grid (residual-checked)"),
+ "C18": ("7 C18", "TLAPS proof over module WLCore (unbounded: g - gprev = H * ln f and the stop rule are inductive over step and flat check, a step never leaves the window) + TLC model checking of the Wang-Landau state machine over bins (every start bin, proposal and allowed decision to a bounded depth: NeverLeavesWindow, CountRule, FlatRule, NoEarlyReset, ScheduleRule, GIncrement, StopRule) + TLC trace validation (Trace_WL) of real run_normal_WL runs recorded through the guarded hook and a seeded recording RNG: every step, flat check, the returned array and the DOS / histogram / glog / sequence-log files, including a run at the default threshold and one on a chain above 1000 residues", NOTE + "; TLAPS SMT back end trusted; math.log used by the encoder to put ln f and ln p on the 2^-k grid (residual-checked)"),
  "C19": ("7 C19", "TLC model checking of the figure geometry (the five region polygons are read from the real figure and, for every composition up to a bound, the marker must lie in the closed polygon of its region and in no other's interior, exact integer arithmetic) + TLC trace validation (Trace_Plots) of the figure records of every diagram-of-states / Uversky entry point x argument combinations and of the linear-profile bar plots", NOTE + "; matplotlib's object model (Agg) is read, not pixels"),
  "C09": ("7 C09", "TLC model checking of the isoelectric-point bisection as a state machine against every monotone three-zone sign oracle on a 1/16 pH grid (never raises, result in the zone, terminates under fairness) + TLC trace validation of get_FCR/NCPR/mean_net_charge/fraction_expanding(pH) as Henderson-Hasselbalch sums (0.1 pH grid x single residues and extreme compositions with a 10^x table TLC verifies by a tenth-power bracket; random sequences x random pH with a trusted kernel), rejection outside [0,14], and of get_isoelectric_point (neutral within 0.02 at the returned pH)", NOTE + "; 10^x for off-grid pH computed by the harness with 60-digit decimals"),
  "C05": ("7 C05", "TLC model checking (delta numerator, SCD coefficients and delta-max invariant under reversal / inversion / p<->n for every pattern up to a bound) + replay of every state with random class-preserving substitutions, reversal and inversion into the five getters + TLC trace validation of base and variants on long random sequences", NOTE),
